@@ -32,16 +32,36 @@ os.makedirs(dst, exist_ok=True)
 for f in ("patch.diff", "demo.py", "note.txt"):
     shutil.copy(f"{src}/{f}", dst)
 results = {}
-rc, out = sh(f"git -C /repo apply {src}/patch.diff"); assert rc == 0, out
-try:
-    for c in checks:
-        rc, out = sh(f"./check {c} --tier quick", "/verif")
-        line = [l for l in out.split("\n") if l.startswith("VIOLATION")]
-        results[c] = {"exit": rc, "line": line[0] if line else None}
-        print(c, rc, line[:1])
-finally:
-    sh("git -C /repo checkout -- .")
-    sh("python3 /verif/translator/gen_tables.py")
+lane = os.environ.get("LANE")     # a scratch copy of /verif (with its .lake): screen against the worktree instead of /repo
+if lane:
+    rc, out = sh(f"git apply {src}/patch.diff", wt); assert rc == 0, out
+    lenv = dict(env, METAPYPE_REPO=wt)
+    try:
+        for c in checks:
+            rc, out = sh(f"./check {c} --tier quick", lane, lenv)
+            line = [l for l in out.split("\n") if l.startswith("VIOLATION")]
+            results[c] = {"exit": rc, "line": line[0] if line else None, "lane": True}
+            print(c, rc, line[:1], out.strip().split("\n")[-1][:200])
+            if line:
+                rp = line[0].split("replay=")[1].split()[0]
+                try:
+                    d = json.load(open(os.path.join(lane, rp)))
+                    results[c]["what"] = str(d.get("what") or d.get("message") or "")[:300]
+                except Exception:
+                    pass
+    finally:
+        sh("git checkout -- .", wt)
+else:
+    rc, out = sh(f"git -C /repo apply {src}/patch.diff"); assert rc == 0, out
+    try:
+        for c in checks:
+            rc, out = sh(f"./check {c} --tier quick", "/verif")
+            line = [l for l in out.split("\n") if l.startswith("VIOLATION")]
+            results[c] = {"exit": rc, "line": line[0] if line else None}
+            print(c, rc, line[:1])
+    finally:
+        sh("git -C /repo checkout -- .")
+        sh("python3 /verif/translator/gen_tables.py")
 note = open(f"{src}/note.txt").read()
 meta = {"property": pid, "breaks": note.strip().split("\n")[0][:300], "needs_to_manifest": note.strip(),
         "confirmed": {"existing_tests": tests, "demo_exit_with_change": rc_demo_mut, "demo_exit_without_change": rc_demo_clean,
